@@ -230,6 +230,11 @@ func (w *World) UDPPortOpen(port int) bool {
 // recv blocks for the next datagram of an inbox, honouring deadline and close.
 func recvFrom(name string, id int, in *inbox, dl func() time.Time, closedCh chan struct{}) (dgram, error) {
 	for {
+		// a deadline that has passed fails the call even when data is queued (as the runtime's poller does)
+		if dl0 := dl(); !dl0.IsZero() && !time.Now().Before(dl0) {
+			rec("net", name+" read timeout", int64(id))
+			return dgram{}, timeoutError("read", "udp")
+		}
 		d, ok, next, closed := in.pop()
 		if ok {
 			return d, nil
@@ -342,6 +347,12 @@ func (c *UDPConn) Write(p []byte) (int, error) {
 		return 0, &net.OpError{Op: "write", Net: "udp", Err: errClosed}
 	}
 	rec("net", c.s.name+" write-call", int64(c.s.id), int64(len(p)), 0, nodeFlag(c.s.node))
+	c.s.mu.Lock()
+	wdl := c.s.wdl
+	c.s.mu.Unlock()
+	if !wdl.IsZero() && !time.Now().Before(wdl) {
+		return 0, timeoutError("write", "udp")
+	}
 	c.s.send(c.s.remote, p)
 	return len(p), nil
 }
@@ -371,6 +382,7 @@ func (c *UDPConn) SetReadDeadline(t time.Time) error {
 		d = int64(time.Until(t))
 	}
 	rec("net", c.s.name+" set-read-deadline", int64(c.s.id), d, 0, nodeFlag(c.s.node))
+	poke(c.s.in.wake) // a read that is already blocked observes the new deadline
 	return nil
 }
 
@@ -671,6 +683,12 @@ func (c *PacketConn) WriteTo(p []byte, addr net.Addr) (int, error) {
 		return 0, errors.New("unsupported address type")
 	}
 	rec("net", c.s.name+" write-call", int64(c.s.id), int64(len(p)))
+	c.s.mu.Lock()
+	wdl := c.s.wdl
+	c.s.mu.Unlock()
+	if !wdl.IsZero() && !time.Now().Before(wdl) {
+		return 0, timeoutError("write", "udp")
+	}
 	c.s.send(Addr{"udp", ua.IP.String(), ua.Port}, p)
 	return len(p), nil
 }
@@ -696,6 +714,7 @@ func (c *PacketConn) SetReadDeadline(t time.Time) error {
 	c.s.mu.Lock()
 	c.s.rdl = t
 	c.s.mu.Unlock()
+	poke(c.s.in.wake) // a read that is already blocked observes the new deadline
 	return nil
 }
 
